@@ -40,9 +40,9 @@ func init() {
 				Procs:    8,
 				Rule: "case = one concurrent run on one cache (LRU store behind a serialisation-checking proxy; 3-5 keys so that at most 5 heap entries exist and finding F1 cannot occur; limit 2-4 with unit sizes or limit 4-8 with sizes 0-3). " +
 					"(a) linearizability cases: 2-4 goroutines x 4-8 ops of Has/Get/Put/Remove/Len/Size/Clear, call/return stamped from one atomic counter at the client boundary, unique value id per Put, checked with porcupine against the reference LRU (no partitioning: eviction/Len/Size/Clear couple the keys), then a final Clear and the exactly-once accounting of the eviction log; " +
-					"(b) stress cases: 2-8 goroutines x 150-400 ops with goroutine-local results only (no harness synchronisation that could hide a race), an observer goroutine probing Size() and the accounting hook, run under the race detector and plain. GOMAXPROCS in {1,2,4,16} by block; random yields before calls and inside the proxy/size function/eviction callback. " +
+					"(b) stress cases: 2-8 goroutines x 150-400 ops with goroutine-local results only (no harness synchronisation that could hide a race), an observer goroutine probing Size() and the accounting hook, run under the race detector and plain. (c) large-cache cases: a cache of 257..4097 unit entries is cleared while 2-4 observers call Len/Size (and optionally one Put races): every observation must be explained by Clear being one atomic step, and every entry must be reported evicted exactly once. GOMAXPROCS in {1,2,4,16} by block; random yields before calls and inside the proxy/size function/eviction callback. " +
 					"distinct = hash(per-client op lists, set of overlapping op pairs) = distinct interleavings observed; non-trivial = at least one pair of conflicting operations (same key, or one of them Len/Size/Clear/evicting Put) overlapped in real time",
-				Required:     []string{"lin_histories", "lin_overlapping_conflicting_pairs", "lin_histories_with_eviction_and_overlap", "stress_rounds", "stress_ops", "store_proxy_calls", "observer_probes", "evictions_logged", "porcupine_ok"},
+				Required:     []string{"lin_histories", "lin_overlapping_conflicting_pairs", "lin_histories_with_eviction_and_overlap", "stress_rounds", "stress_ops", "store_proxy_calls", "observer_probes", "evictions_logged", "porcupine_ok", "large_clear_cases", "large_clear_observations"},
 				Assumptions:  []string{"sequential specification = reference LRU of C08; key space <= 5 so that the heap never has more than 5 entries and known finding F1/F2 cannot influence results", "the race detector only sees accesses that actually overlapped without an intervening happens-before edge", "porcupine v1.3.0 is trusted as the linearizability decision procedure (60 s timeout => inconclusive)"},
 				CoverPkgs:    []string{"github.com/creachadair/mds/cache"},
 				CoverAnchors: []string{"cache/cache.go"},
@@ -628,6 +628,145 @@ func c09stressCase(c *fw.Ctx, r *rand.Rand) {
 	c.Add("stress_evictions", rig.nevict.Load())
 }
 
+// --- large caches: Clear must be one atomic step ----------------------------
+
+// c09clearCase fills a cache with n unit-size entries (n in the hundreds or
+// thousands, beyond any batching threshold), then runs Clear concurrently with
+// observers calling Len/Size (and optionally one Put of a fresh key). With only
+// these operations a linearizable cache shows Len in {n, 0} (+1 for the Put),
+// never a partly cleared value; every entry is reported evicted exactly once.
+func c09clearCase(c *fw.Ctx, r *rand.Rand) {
+	n := []int{257, 300, 512, 513, 1000, 1025, 2000, 4097}[r.IntN(8)]
+	withPut := r.IntN(2) == 0
+	rig := newC09rig(int64(n), true, r.Uint64(), r.IntN(2) == 0, true)
+	for k := 0; k < n; k++ {
+		rig.ch.Put(k, CVal{ID: k + 1, Sz: 1})
+	}
+	var clock atomic.Int64
+	type obs struct {
+		call, ret int64
+		v         int64
+		size      bool
+	}
+	nobs := 2 + r.IntN(3)
+	results := make([][]obs, nobs)
+	var clearCall, clearRet, putCall, putRet atomic.Int64
+	var putOK atomic.Bool
+	var done atomic.Bool
+	var wg sync.WaitGroup
+	start := make(chan struct{})
+	for o := 0; o < nobs; o++ {
+		wg.Add(1)
+		go func(o int) {
+			defer wg.Done()
+			<-start
+			var out []obs
+			for i := 0; i < 4000 && (!done.Load() || i < 20); i++ {
+				ob := obs{size: (i+o)%3 == 0}
+				ob.call = clock.Add(1)
+				if ob.size {
+					ob.v = rig.ch.Size()
+				} else {
+					ob.v = int64(rig.ch.Len())
+				}
+				ob.ret = clock.Add(1)
+				out = append(out, ob)
+				if i%8 == 0 {
+					runtime.Gosched()
+				}
+			}
+			results[o] = out
+		}(o)
+	}
+	wg.Add(1)
+	go func() {
+		defer wg.Done()
+		<-start
+		for i := 0; i < 3; i++ {
+			runtime.Gosched()
+		}
+		clearCall.Store(clock.Add(1))
+		rig.ch.Clear()
+		clearRet.Store(clock.Add(1))
+		c.Step()
+	}()
+	if withPut {
+		wg.Add(1)
+		go func() {
+			defer wg.Done()
+			<-start
+			for i := 0; i < r.IntN(6); i++ {
+				runtime.Gosched()
+			}
+			putCall.Store(clock.Add(1))
+			putOK.Store(rig.ch.Put(n+7, CVal{ID: n + 100, Sz: 1}))
+			putRet.Store(clock.Add(1))
+		}()
+	}
+	close(start)
+	// let observers run until Clear (and Put) returned
+	go func() {
+		for clearRet.Load() == 0 || (withPut && putRet.Load() == 0) {
+			runtime.Gosched()
+		}
+		done.Store(true)
+	}()
+	wg.Wait()
+	data := map[string]any{"entries": n, "with_concurrent_put": withPut, "observers": nobs, "gomaxprocs": runtime.GOMAXPROCS(0)}
+	c.Add("large_clear_cases", 1)
+	cc, cr := clearCall.Load(), clearRet.Load()
+	for o, out := range results {
+		c.Add("large_clear_observations", int64(len(out)))
+		for _, ob := range out {
+			ok := ob.v == int64(n) || ob.v == 0 || (withPut && (ob.v == 1 || ob.v == int64(n))) // Put before Clear keeps n (evicts one), after Clear gives 1
+			if ob.ret < cc && ob.v != int64(n) {
+				ok = false
+			}
+			if ob.call > cr && !(ob.v == 0 || (withPut && ob.v == 1)) {
+				ok = false
+			}
+			if !ok {
+				what := "Len"
+				if ob.size {
+					what = "Size"
+				}
+				c.Fail(data, "observer %d saw %s() = %d (call@%d ret@%d) while Clear ran from @%d to @%d on a cache of %d entries: no sequential order of Clear/Put/Len explains a partly cleared cache", o, what, ob.v, ob.call, ob.ret, cc, cr, n)
+				return
+			}
+		}
+	}
+	// quiescence: final contents and exactly-once accounting
+	finalLen := rig.ch.Len()
+	if !(finalLen == 0 || (withPut && finalLen == 1)) {
+		c.Fail(data, "after Clear (and Put) returned, Len = %d", finalLen)
+		return
+	}
+	rig.ch.Clear()
+	rig.mu.Lock()
+	seen := map[int]int{}
+	for _, e := range rig.evlog {
+		seen[e.V.ID]++
+	}
+	rig.mu.Unlock()
+	want := n
+	if withPut && putOK.Load() {
+		want = n + 1
+	}
+	bad := 0
+	for _, k := range seen {
+		if k != 1 {
+			bad++
+		}
+	}
+	if len(seen) != want || bad > 0 {
+		c.Fail(data, "eviction callback reported %d distinct values (%d of them more than once), %d were stored", len(seen), bad, want)
+		return
+	}
+	if n := rig.proxy.overlap.Load(); n > 0 {
+		c.Fail(data, "Store methods were in flight concurrently %d time(s)", n)
+	}
+}
+
 func runC09(c *fw.Ctx) {
 	procs := []int{1, 2, 4, 16}[c.Block%4]
 	old := runtime.GOMAXPROCS(procs)
@@ -654,6 +793,22 @@ func runC09(c *fw.Ctx) {
 			ok, pv, stack := fw.Try(func() { c09linCase(c, r) })
 			if !ok {
 				c.FailKind("panic", map[string]any{"phase": "linearizability case"}, "panic: %v\n%s", pv, stack)
+			}
+		}
+	}
+	nclear := c.Pick(25, 400)
+	for i := 0; i < nclear; i++ {
+		if !c.Begin(1<<21 + i) {
+			continue
+		}
+		for rep := 0; rep < reps && !c.Stopped(); rep++ {
+			r := c.Rng()
+			if rep > 0 {
+				r = rand.New(rand.NewPCG(uint64(rep), uint64(i)))
+			}
+			ok, pv, stack := fw.Try(func() { c09clearCase(c, r) })
+			if !ok {
+				c.FailKind("panic", map[string]any{"phase": "large-cache Clear case"}, "panic: %v\n%s", pv, stack)
 			}
 		}
 	}
